@@ -130,6 +130,11 @@ def minimise(sim, knobs, events, clause, budget_s=25.0, max_replays=400):
 
 def _init_worker():
     faulthandler.enable()
+    try:            # die with the parent (a killed or timed-out check must not leave workers behind)
+        import ctypes
+        ctypes.CDLL("libc.so.6", use_errno=True).prctl(1, signal.SIGKILL)
+    except Exception:
+        pass
 
 
 def _chunk(args):
@@ -143,7 +148,13 @@ def _chunk(args):
         }
         for idx in range(start, start + count):
             faulthandler.dump_traceback_later(hard, exit=True)
+            if os.environ.get("VERIF_DEBUG_MEM"):
+                open(f"/tmp/verif_cur_{os.getpid()}", "w").write(str(idx))
             st = run_generated(sim, seed, idx, tier)
+            if os.environ.get("VERIF_DEBUG_MEM"):
+                rss = int(open("/proc/self/statm").read().split()[1]) * 4096 // 2 ** 20
+                if rss > int(os.environ["VERIF_DEBUG_MEM"]):
+                    print(f"[mem] pid {os.getpid()} rss {rss} MB after run {idx} (chunk {start}+{count}) knobs {st.knobs.get('scenario')} events {len(st.events)}", file=sys.stderr, flush=True)
             out["runs"] += 1
             out["events"] += st.n_events
             out["probes"].update(st.probes)
